@@ -639,7 +639,10 @@ def translate_fn(toks, decls, self_enum, rust_name, lean_name):
     em = Emit(self_enum, decls)
     ps = " ".join(f"({em.var(n)} : {lean_type(t, self_enum)})" for n, t in params)
     rt = lean_type(ret, self_enum)
-    return f"def {lean_name} {ps} : {rt} :=\n  {em.expr(body, 1)}\n"
+    b = em.expr(body, 1)
+    if rt == "Bool" and body[0] == "bin":      # a comparison used as a value
+        b = f"decide {b}"
+    return f"def {lean_name} {ps} : {rt} :=\n  {b}\n"
 
 
 JOBS = [
@@ -647,6 +650,7 @@ JOBS = [
     ("src/server/op.rs", "SyncOp", "transform", "transform", "SrcTransform"),
     ("src/server/op.rs", "SyncOp", "from_op", "fromOp", "SrcFromOp"),
     ("src/operation.rs", "Operation", "get_uuid", "getUuid", "SrcGetUuid"),
+    ("src/operation.rs", "Operation", "is_undo_point", "isUndoPoint", "SrcGetUuid"),
     ("src/task/status.rs", "Status", "from_taskmap", "statusFromTaskmap", "SrcStatus"),
     ("src/task/status.rs", "Status", "to_taskmap", "statusToTaskmap", "SrcStatus"),
 ]
